@@ -27,17 +27,32 @@ MODELS = {   # class -> (c, e, lo, hi)  -- the constants of the property stateme
     "SharpIR2Y0A41": ("12.84", "-0.9824", "4.5", "35"),
 }
 MACROS = {"clamp(d, lo, hi)": "max(min(d, hi), lo)"}
-CLASSES = {"IRAnalog": {"fields": {}}, "IRSim": {"fields": {}}}
+CLASSES = {"IRAnalog": {"fields": {"g_port": "Int"}}, "IRSim": {"fields": {"g_of": "Ref:IRAnalog"}}}
+CALL_OVERRIDES = {}
 CONTRACTS = {
     "math.pow": {"kind": "external", "params": {"x": "Real", "e": "Real"}, "returns": "Real",
                  "requires": {"C17.S0 pow is only applied to a positive base (never raises)": "x > 0"},
                  "ensures": {"the power function": "result == pow(x, e)"}, "note": "libm pow; its laws are the AXIOMS of this sidecar"},
+    "ir.new_analog": {"kind": "external", "params": {"port": "Int"}, "returns": "Ref:IRAnalog", "returns_fresh": True, "ensures": {"analog input on that port": "result.g_port == port"}, "note": "wpilib.AnalogInput(port)"},
+    "ir.new_sim": {"kind": "external", "params": {"analog": "Ref:IRAnalog"}, "returns": "Ref:IRSim", "returns_fresh": True, "ensures": {"simulation handle of that input": "result.g_of is analog"}, "note": "wpilib.simulation.AnalogInputSim(analog_input)"},
     "IRAnalog.getVoltage": {"kind": "external", "params": {}, "returns": "Real", "ensures": {"voltage": "result == g_irvolt"}, "note": "arbitrary analog reading (any real, incl. <= 0)"},
     "IRSim.setVoltage": {"kind": "external", "params": {"v": "Real"}, "modifies": ["g_irvolt"], "ensures": {"the simulated input now reads v": "g_irvolt == v"},
                          "note": "AnalogInputSim.setVoltage -> AnalogInput.getVoltage round trip (assumed; exercised natively)"},
 }
 for cls, (c, e, lo, hi) in MODELS.items():
-    CLASSES[cls] = {"fields": {"distance": "Ref:IRAnalog"}}
+    CLASSES[cls] = {"fields": {"distance": "Ref:IRAnalog"}, "exact": True}
+    CALL_OVERRIDES[(f"{cls}.__init__", "wpilib.AnalogInput")] = "ir.new_analog"
+    CALL_OVERRIDES[(f"{cls}Sim.__init__", "AnalogInputSim")] = "ir.new_sim"
+    CONTRACTS[f"{cls}.__init__"] = {
+        "file": FILE, "receivers": [cls], "ctor": True, "params": {"port": "Int"}, "modifies": ["self.distance"],
+        "ensures": {f"C17.W0 {cls} reads the analog input on the given port": "self.distance is not None and self.distance.g_port == port"},
+    }
+    CONTRACTS[f"{cls}Sim.__init__"] = {
+        "file": F_SIM, "receivers": [cls + "Sim"], "ctor": True, "params": {"sensor": f"Ref:{cls}"}, "modifies": ["self._sim", "self._distance"], "raises": "AssertionError",
+        "requires": {"the sensor is wired": "implies(sensor is not None, sensor.distance is not None)"},
+        "ensures": {f"C17.H0 {cls}Sim drives exactly the analog input its sensor reads; no distance set yet": "sensor is not None and self._sim is not None and self._sim.g_of is sensor.distance and self._distance == 0"},
+        "ensures_raise": {"only when no sensor of that type is given": "sensor is None"},
+    }
     CLASSES[cls + "Sim"] = {"fields": {"_sim": "Ref:IRSim", "_distance": "Real"}}
     CONTRACTS[f"{cls}.getDistance"] = {
         "file": FILE, "receivers": [cls], "params": {}, "returns": "Real", "modifies": [], "raises": False,
